@@ -591,8 +591,8 @@ func genRT(g *lp.Gen) {
 		if g.Tier == "thorough" && g.Chance(1, 100) {
 			ln = g.PickInt(1<<20, 2<<20+3)
 		}
-		if mf < 8 && ln > 3000 {
-			ln = 3000
+		if ln/mf > 1500 { // keep the number of frames per message affordable for the list-based model driver
+			ln = mf*1500 + g.PickInt(-1, 0, 1)
 		}
 		if ln < 0 {
 			ln = 0
@@ -656,9 +656,65 @@ func genMask(g *lp.Gen, all bool) {
 	}
 }
 
+// genUTF8: the assumption "utf8.Valid = the model's utf8Valid": the shards of one run together sweep all
+// one- and two-byte strings; three- and four-byte strings are sampled around the encoding boundaries.
+func genUTF8(g *lp.Gen, shard int) {
+	g.P("C utf8")
+	for b := 0; b < 256; b++ {
+		g.P("U %02x", b)
+	}
+	for a := 16 * (shard % 16); a < 16*(shard%16)+16; a++ {
+		for b := 0; b < 256; b++ {
+			g.P("U %02x%02x", a, b)
+		}
+	}
+	lead3 := []int{0xe0, 0xe1, 0xec, 0xed, 0xee, 0xef, 0xdf, 0xf0}
+	lead4 := []int{0xf0, 0xf1, 0xf3, 0xf4, 0xf5, 0xef, 0xf8}
+	edge := []int{0x00, 0x7f, 0x80, 0x8f, 0x90, 0x9f, 0xa0, 0xbf, 0xc0, 0xff}
+	for i := 0; i < 1500; i++ {
+		c := func() int {
+			if g.Chance(2, 3) {
+				return edge[g.Intn(len(edge))]
+			}
+			return g.Intn(256)
+		}
+		if g.Chance(1, 2) {
+			g.P("U %02x%02x%02x", lead3[g.Intn(len(lead3))], c(), c())
+		} else {
+			g.P("U %02x%02x%02x%02x", lead4[g.Intn(len(lead4))], c(), c(), c())
+		}
+	}
+	for i := 0; i < 200; i++ {
+		var sb strings.Builder
+		for j := 0; j < 3; j++ {
+			if g.Chance(1, 4) {
+				sb.WriteString(utfBad[g.Intn(len(utfBad))])
+			} else {
+				sb.WriteString(utfGood[g.Intn(len(utfGood))])
+			}
+		}
+		g.P("U %s", specOf([]byte(sb.String())))
+	}
+}
+
+// genTrunc: chunkings of short streams for truncWriter (holds back the last four bytes)
+func genTrunc(g *lp.Gen) {
+	g.P("C trunc")
+	for i := 0; i < 80; i++ {
+		n := 1 + g.Intn(5)
+		var cs []string
+		for j := 0; j < n; j++ {
+			cs = append(cs, specOf(randBytes(g, g.PickInt(0, 1, 1, 2, 3, 4, 5, 6, 9, 40))))
+		}
+		g.P("T %s", strings.Join(cs, ","))
+	}
+}
+
 func gen(g *lp.Gen) {
 	genMask(g, true)
-	for i := 1; i < g.N; i++ {
+	genTrunc(g)
+	genUTF8(g, int(genSeed%1000))
+	for i := 3; i < g.N; i++ {
 		switch x := g.Intn(100); {
 		case x < 70:
 			genRecv(g)
